@@ -23,7 +23,7 @@ RULE = ('matrix: every /v1/peer/ rule x {GET,HEAD,POST,PUT,DELETE,PATCH} x {no c
         'distinct by (rule, method, credentials, state, body).')
 ASSUMPTIONS = ['REST calls are atomic between reactor events (Flask test client, no thread pool)',
                'an HTTP error status (400/404/405/415/500) counts as "reports failure" as long as nothing was sent or changed']
-EXHAUSTIVE = {'quick': True, 'thorough': True}
+EXHAUSTIVE = {'quick': False, 'thorough': False}   # the matrix part is complete, the send requests are sampled
 
 PEER = '10.0.0.2'
 SENDING = ('send/update', 'send/route-refresh', 'send/bin_update', 'json_to_bin', 'adj-rib-in', 'adj-rib-out')
